@@ -52,7 +52,7 @@ def replay (j : Json) : R Verdict := do
   -- C06: after a child has failed, the evaluations in flight are told to abort: for children that means they are killed
   match (fieldD obs "aliveAfterFailure").getNat?.toOption with
   | some k => if family == "failure" && k > 0 then
-      pf := ("C06", s!"{k} objective-function process(es) still alive 400 ms after a sibling failed: the evaluations in flight were not ended") ::
+      pf := ("C06", s!"{k} objective-function process(es) still alive seconds after a sibling failed (looked at repeatedly for 4 s): the evaluations in flight were not ended") ::
             ("C04", s!"{k} process(es) still alive after the run was told to stop by a failure") :: pf
   | none => pure ()
   -- exit status class
